@@ -1,0 +1,44 @@
+//go:build verif
+
+/*
+ * SPDX-License-Identifier: Apache-2.0
+ */
+
+package table
+
+import (
+	"crypto/aes"
+
+	"github.com/dgraph-io/badger/v4/fb"
+	"github.com/dgraph-io/badger/v4/y"
+)
+
+// VerifKVBlockIVs returns the IV stored at the end of every encrypted block of the table
+// (nil for a plain-text table). Read-only; uses the production offsets/read functions.
+func (t *Table) VerifKVBlockIVs() [][]byte {
+	if !t.shouldDecrypt() {
+		return nil
+	}
+	var out [][]byte
+	for i := 0; i < t.offsetsLength(); i++ {
+		var ko fb.BlockOffset
+		if !t.offsets(&ko, i) {
+			break
+		}
+		data, err := t.read(int(ko.Offset()), int(ko.Len()))
+		if err != nil || len(data) < aes.BlockSize {
+			continue
+		}
+		out = append(out, y.SafeCopy(nil, data[len(data)-aes.BlockSize:]))
+	}
+	return out
+}
+
+// VerifKVIndexIV returns the IV stored at the end of the encrypted table index.
+func (t *Table) VerifKVIndexIV() []byte {
+	if !t.shouldDecrypt() || t.indexLen < aes.BlockSize {
+		return nil
+	}
+	data := t.readNoFail(t.indexStart, t.indexLen)
+	return y.SafeCopy(nil, data[len(data)-aes.BlockSize:])
+}
